@@ -372,6 +372,8 @@ def main(argv):
         d_corr.append("(%d, (%s, %s, %s))" % (i, nat(n), coq_list(ops), coq_list(coq_list(map(nat, o)) for o in obs)))
 
     # live
+    raw_keys = set()
+
     def live_terms(cases, observations, base=0):
         corr, mon, info = [], [], {}
         for i, (lc, obs) in enumerate(zip(cases, observations)):
@@ -403,7 +405,13 @@ def main(argv):
                             coq_bool(fwd), coq_bool(o["c"] == 1)))
                         info[key] = {"case": i, "publish": pi, "payload": op[1], "handler": cur, "observed": o}
                     pi += 1
-            corr.append("(%d, (%s, %s))" % (base + i, coq_list(ops), coq_list(exp)))
+            raw = any(op[0] not in ("S", "P") for op in lc["ops"])
+            if raw:
+                # the script drives B's pubsub registry directly (staged registry state of a replay): no model
+                # counterpart; its monitor verdict counts only while the extracted sequence really has such a state
+                raw_keys.update(k for k in info if info[k]["case"] == i)
+            else:
+                corr.append("(%d, (%s, %s))" % (base + i, coq_list(ops), coq_list(exp)))
         return corr, mon, info
 
     l_corr, l_mon, l_info = live_terms(live_cases, lobs)
@@ -526,7 +534,11 @@ Print f_corr_bad. Print w_corr_bad. Print d_corr_bad. Print l_corr_bad. Print ga
                  "DaisyChain passes a message through a node whose handler is nil (observed in %d messages; first: line of %d, "
                  "origin %d, statuses %s, seen by %s)" % (len(strict_only), daisy_cases[inf["case"]]["n"], inf["origin"], inf["status"], inf["seen"]),
                  {"cases": {"daisy": [daisy_cases[inf["case"]]]}, "observed": inf, "how": "echo '%s' | bin/h_c20 daisy" % dl[inf["case"]]})
-    for key in mon_res["l_mon_bad"][:3]:
+    l_bad = [k for k in mon_res["l_mon_bad"] if k not in raw_keys or gaps]
+    if len(l_bad) != len(mon_res["l_mon_bad"]):
+        c.notes.append("replayed registry-staging script ignored: the sequence extracted from the current tree has no "
+                       "no-validator window")
+    for key in l_bad[:3]:
         inf = l_info[key]
         found = True
         c.report("libp2p-relay-not-accepted",
